@@ -236,6 +236,26 @@ func BuildRig(spec FanSpec, slot int, law RpmLaw, curve0 int) *Rig {
 		cfg.PwmMap = &m
 	}
 	switch spec.Kind {
+	case "cmd":
+		// a script based fan: real /bin/sh scripts over state files implementing the same device model
+		Unregister(pwmPath)
+		r.Pwm = NewFileDev(pwmPath, spec.OrigPwm)
+		r.Rpm = NewFileDev(rpmPath, 0)
+		_ = os.WriteFile(rpmPath+".theta", []byte(fmt.Sprint(law.Theta)), 0644)
+		_ = os.WriteFile(rpmPath+".rpm", []byte(fmt.Sprint(law.Rpm)), 0644)
+		set, get, rpm := filepath.Join(dir, id+"_set.sh"), filepath.Join(dir, id+"_get.sh"), filepath.Join(dir, id+"_rpm.sh")
+		script := func(p, body string) {
+			_ = os.WriteFile(p, []byte("#!/bin/sh\n"+body), 0755)
+			_ = os.Chmod(p, 0755)
+		}
+		script(set, "F="+pwmPath+"\nm=$(cat $F.wmode)\nif [ \"$m\" = 0 ]; then echo \"$1\" > $F; fi\necho \"$1:$(cat $F)\" >> $F.log\n[ \"$m\" = 1 ] && exit 1\nexit 0\n")
+		script(get, "F="+pwmPath+"\necho r >> $F.reads\ncase $(cat $F.rmode) in 1|2|5) exit 1;; 3) echo garbage; exit 0;; 4) exit 0;; esac\ncat $F\n")
+		script(rpm, "F="+pwmPath+"\nR="+rpmPath+"\necho r >> $R.reads\ncase $(cat $R.rmode) in 1|2|5) exit 1;; 3) echo garbage; exit 0;; 4) exit 0;; esac\nif [ $(cat $F) -ge $(cat $R.theta) ]; then cat $R.rpm; else echo 0; fi\n")
+		cc := &configuration.CmdFanConfig{SetPwm: &configuration.ExecConfig{Exec: set, Args: []string{"%pwm%"}}, GetPwm: &configuration.ExecConfig{Exec: get}}
+		if !spec.NoRpm {
+			cc.GetRpm = &configuration.ExecConfig{Exec: rpm}
+		}
+		cfg.Cmd = cc
 	case "file":
 		fc := &configuration.FileFanConfig{Path: pwmPath}
 		if !spec.NoRpm {
@@ -281,6 +301,10 @@ func (r *Rig) SetLaw(theta, rpm *int) {
 	}
 	if rpm != nil {
 		r.law.Rpm = *rpm
+	}
+	if r.Rpm.file != "" {
+		_ = os.WriteFile(r.Rpm.file+".theta", []byte(fmt.Sprint(r.law.Theta)), 0644)
+		_ = os.WriteFile(r.Rpm.file+".rpm", []byte(fmt.Sprint(r.law.Rpm)), 0644)
 	}
 	r.lawMu.Unlock()
 }
